@@ -278,6 +278,28 @@ def rule_R4_letchains(text, log):
        ->  `if C1 { if C2 .. { A } [else B'] } [else B']`   (B' = B, wrapped in braces when B is an else-if chain)
     applied until no `if` header mixes `&&` with a `let`"""
     out = text
+    # `while C1 && let P = E .. { B }`  ->  `loop { if C1 && let P = E .. { B } else { break; } }`
+    while True:
+        mask = code_mask(out)
+        hitw = None
+        for mm in re.finditer(r'\bwhile\b', out):
+            if not mask[mm.start()]:
+                continue
+            try:
+                ob = _if_header_end(out, mask, mm.end())
+            except Unsupported:
+                continue
+            hdr = ''.join(c if mask[mm.end() + k] else ' ' for k, c in enumerate(out[mm.end():ob]))
+            if '&&' in hdr and re.search(r'(^|&&)\s*let\s', hdr.strip()):
+                hitw = (mm, ob)
+                break
+        if hitw is None:
+            break
+        mm, ob = hitw
+        cb = match_brace(out, mask, ob)
+        new = 'loop { if' + out[mm.end():cb + 1] + ' else { break; } }'
+        log.append(('R4', norm_ws(out[mm.start():ob])[:100], 'loop { if .. { .. } else { break; } }'))
+        out = out[:mm.start()] + new + out[cb + 1:]
     guard = 0
     while True:
         guard += 1
@@ -643,6 +665,7 @@ class Unit(object):
         self.items = []             # extracted non-fn items
         self.cells = {}             # type -> [fields]
         self.lost_aids = []
+        self.late_hints = False
         self.rules = set(['R1', 'R2', 'ATTR', 'R4', 'R5', 'R6', 'R10', 'R11', 'R14', 'R15', 'R17'])
         self.unit_props = []
         self.lemmas = []
@@ -832,6 +855,72 @@ def _find_anchor(body, mask, anchor, nth=1):
     if len(hits) < max(nth, 1) or (len(hits) > 1 and nth == 0):
         raise AnchorLost('statement anchor not found / ambiguous: `%s` (%d hits)' % (anchor, len(hits)))
     return hits[(nth or 1) - 1]
+
+_RUST_KW = set('as break const continue crate else enum extern false fn for if impl in let loop match mod move mut pub ref return self Self static struct super trait true type unsafe use where while async await dyn'.split())
+
+
+def _find_anchor_fuzzy(body, mask, anchor, nth=1):
+    """the anchor with its local-variable-like identifiers as wildcards (same name -> same wildcard): tolerates renamed
+    locals.  Returns (match, {old name: new name}); raises AnchorLost unless the match is unique (or the nth exists)."""
+    toks = re.findall(r'[A-Za-z_]\w*|\s+|.', anchor)
+    names = []
+    pat = []
+    for k, t in enumerate(toks):
+        if t.isspace():
+            continue
+        prev = next((toks[j] for j in range(k - 1, -1, -1) if not toks[j].isspace()), '')
+        nxt = next((toks[j] for j in range(k + 1, len(toks)) if not toks[j].isspace()), '')
+        nxt2 = ''.join(toks[k + 1:k + 4]).lstrip()
+        is_macro = nxt == '!' and not nxt2.startswith('!=')
+        is_local = (re.match(r'^[a-z_][a-z0-9_]*$', t) and t not in _RUST_KW and prev != '.' and nxt != '(' and not is_macro
+                    and not nxt2.startswith('::') and not (prev == ':' and k >= 2 and toks[k - 2] == ':'))
+        if is_local:
+            if t in names:
+                pat.append('(?P=v%d)' % names.index(t))
+            else:
+                names.append(t)
+                pat.append('(?P<v%d>[a-z_][a-z0-9_]*)' % (len(names) - 1))
+        else:
+            pat.append(re.escape(t))
+    if not names:
+        raise AnchorLost('no fuzzy form')
+    rx = re.compile(r'\s*'.join(pat))
+    hits = [m for m in rx.finditer(body) if mask[m.start()]]
+    if len(hits) < max(nth, 1) or (len(hits) > 1 and nth == 0):
+        raise AnchorLost('fuzzy anchor not found / ambiguous: `%s` (%d hits)' % (anchor, len(hits)))
+    m = hits[(nth or 1) - 1]
+    mapping = dict((n, m.group('v%d' % i)) for i, n in enumerate(names) if m.group('v%d' % i) != n)
+    if any(v in _RUST_KW for v in mapping.values()):
+        raise AnchorLost('fuzzy anchor matched a keyword')
+    return m, mapping
+
+def _pure_hint(lines_):
+    """only `proof { .. }` with lemma calls / asserts: no ghost declaration, no assignment"""
+    txt = ' '.join(l.strip() for l in lines_)
+    if 'let ghost' in txt or 'let tracked' in txt:
+        return False
+    t2 = re.sub(r'==>|<==>|==|!=|<=|>=|=>', ' ', txt)
+    return '=' not in t2
+
+
+def _end_of_block_pos(body, mask, pos):
+    """offset just after the last top-level `;` of the block that encloses pos (at or after pos), else pos"""
+    depth = 0
+    j = pos
+    last = None
+    while j < len(body):
+        if mask[j]:
+            c = body[j]
+            if c in '{([':
+                depth += 1
+            elif c in '})]':
+                if depth == 0:
+                    break
+                depth -= 1
+            elif c == ';' and depth == 0:
+                last = j + 1
+        j += 1
+    return last if last is not None else pos
 
 
 def process_template(unit, tmpl_path, prelude_dir):
@@ -1166,6 +1255,17 @@ def emit_fn(unit, loc, dlines, tmpl_where):
     emit_fn_text(unit, rel, path, fn_id, text, line0, line_of(src, it.end), dlines, tmpl_where)
 
 
+class _Span(object):
+    def __init__(self, a, b):
+        self._a, self._b = a, b
+
+    def start(self):
+        return self._a
+
+    def end(self):
+        return self._b
+
+
 class _Span0(object):
     def __init__(self, a):
         self._a = a
@@ -1219,7 +1319,12 @@ def emit_block(unit, loc, dlines, tmpl_where):
     if not name or not sig:
         raise Unsupported('%s: //@block needs name and sig' % tmpl_where)
     ma = _find_anchor(body, bmask, a_txt, 0)
-    if b_txt == '{*}':
+    if b_txt == '$':
+        # up to the end of the function body
+        endb = len(body.rstrip()) - 1
+        mb = _Span0(endb)
+        blk = body[ma.start():endb]
+    elif b_txt == '{*}':
         # the statement that the start anchor opens: from the anchor to the brace that closes its block
         if body[ma.end() - 1] != '{':
             raise Unsupported('%s: `{*}` needs a start anchor that ends with an opening brace' % tmpl_where)
@@ -1510,6 +1615,10 @@ def emit_fn_text(unit, rel, path, fn_id, text, line0, end_line, dlines, tmpl_whe
         unit.emit(a + '\n', {'k': 'tmpl', 'line': 0, 'file': tmpl_where})
     if trusted:
         unit.emit('#[verifier::external_body]\n', {'k': 'tmpl', 'line': 0, 'file': tmpl_where})
+    elif has_body:
+        # termination is claimed only where the contract gives a `decreases`; a loop that carries none
+        # (e.g. one that a change has just introduced) must not stop the verifier
+        unit.emit('#[verifier::exec_allows_no_decreases_clause]\n', {'k': 'tmpl', 'line': 0, 'file': tmpl_where})
     unit.emit(sig.rstrip() + '\n', repo_origin(0))
     for sec in sections:
         if sec[0] in ('requires', 'ensures', 'decreases', 'recommends', 'opens_invariants', 'no_unwind'):
@@ -1524,6 +1633,45 @@ def emit_fn_text(unit, rel, path, fn_id, text, line0, end_line, dlines, tmpl_whe
     bmask = code_mask(body)
     inserts = []   # (offset_in_body, section, lines, key)
     loops = None
+    # renamed locals: an anchor that is no longer found literally is looked for with its local-variable-like
+    # identifiers as wildcards; the renaming it reveals is applied to every proof aid of the function
+    renames = {}
+    for sec in sections:
+        if sec[0] in ('before', 'after'):
+            try:
+                _find_anchor(body, bmask, sec[1][0], sec[1][1])
+            except AnchorLost:
+                try:
+                    _m, mp = _find_anchor_fuzzy(body, bmask, sec[1][0], sec[1][1])
+                except AnchorLost:
+                    continue
+                # the hint that hangs on this anchor speaks about the anchor's own variables
+                for a_, b_ in mp.items():
+                    sec[2] = [re.sub(r'(?<![\w.])%s\b' % re.escape(a_), b_, l) for l in sec[2]]
+                sec[1] = (_m.group(0), 0) if False else (sec[1][0], sec[1][1])
+                sec.append(('fuzzy', _m.start(), _m.end()))
+                for a_, b_ in mp.items():
+                    if renames.get(a_, b_) != b_:
+                        renames = None
+                        break
+                    renames[a_] = b_
+                if renames is None:
+                    renames = {}
+                    break
+    if renames:
+        # only names that are gone from the body are renamed (a name still in use keeps its meaning)
+        renames = dict((a_, b_) for a_, b_ in renames.items() if not any(bmask[m_.start()] for m_ in re.finditer(r'(?<![\w.])%s\b' % re.escape(a_), body)))
+    if renames:
+        def _rn(t):
+            for a_, b_ in renames.items():
+                t = re.sub(r'(?<![\w.])%s\b' % re.escape(a_), b_, t)
+            return t
+        for sec in sections:
+            if sec[0] in ('loop', 'before', 'after', 'atstart', 'atend'):
+                sec[2] = [_rn(l) for l in sec[2]]
+                if sec[0] in ('before', 'after'):
+                    sec[1] = (_rn(sec[1][0]), sec[1][1])
+        unit.rule_log.append({'rule': 'AID', 'before': 'proof aids written for locals %s' % ', '.join(sorted(renames)), 'after': 'renamed to %s' % ', '.join(renames[k] for k in sorted(renames)), 'where': ctx})
     for sec in sections:
         kind = sec[0]
         if kind == 'loop':
@@ -1536,12 +1684,21 @@ def emit_fn_text(unit, rel, path, fn_id, text, line0, end_line, dlines, tmpl_whe
                 continue
             inserts.append((loops[sec[1]][1], 'invariant', sec[2], 'loop%d' % sec[1]))
         elif kind in ('before', 'after'):
+            fz = next((x for x in sec[3:] if isinstance(x, tuple) and x and x[0] == 'fuzzy'), None)
             try:
-                mm = _find_anchor(body, bmask, sec[1][0], sec[1][1])
+                if fz is not None:
+                    mm = _Span(fz[1], fz[2])
+                else:
+                    mm = _find_anchor(body, bmask, sec[1][0], sec[1][1])
             except AnchorLost as e:
                 unit.lost_aids.append({'fn': fn_id, 'aid': 'hint %s `%s`%s' % (kind, sec[1][0], (' #%d' % sec[1][1]) if sec[1][1] else '')})
                 continue
-            inserts.append((mm.start() if kind == 'before' else mm.end(), 'hint', sec[2], sec[1][0]))
+            pos_ = mm.start() if kind == 'before' else mm.end()
+            if getattr(unit, 'late_hints', False) and _pure_hint(sec[2]):
+                # second attempt of the driver: a hint that only calls lemmas / asserts facts is placed before the last
+                # statement or tail expression of its block instead (tolerates reordered independent statements)
+                pos_ = _end_of_block_pos(body, bmask, pos_)
+            inserts.append((pos_, 'hint', sec[2], sec[1][0]))
         elif kind == 'atstart':
             inserts.append((1, 'hint', sec[2], 'start'))
         elif kind == 'atend':
